@@ -109,6 +109,20 @@ def run(R, P="C09"):
                 va, kw = "args", "kwargs"
             else:
                 continue
+            # a nested wrapper with parameters of its own forwards ITS arguments, not those its enclosing function was called with
+            # (those are the arguments of whichever call created the closure - the first one, when the closure is cached)
+            enc = f.parent
+            if enc is not None and enc.node.args.vararg and enc.node.args.kwarg and (a.vararg and a.kwarg):
+                eva, ekw = enc.node.args.vararg.arg, enc.node.args.kwarg.arg
+                if (eva, ekw) != (va, kw):
+                    for c in ast.walk(f.node):
+                        if isinstance(c, ast.Call):
+                            st_ = any(isinstance(x, ast.Starred) and eva in q.names_loaded(x.value) for x in c.args)
+                            ds_ = any(k.arg is None and ekw in q.names_loaded(k.value) for k in c.keywords)
+                            if st_ or ds_:
+                                R.violation(P + ".FORWARD", "%s:captured:%s" % (f.qualname, q.src(c.func)[:40]), R.site(f, c),
+                                            "%s takes (*%s, **%s) but passes on (*%s, **%s) of the enclosing %s: every call re-uses the arguments of the "
+                                            "call that created the closure" % (f.qualname, va, kw, eva, ekw, enc.name))
             for c in ast.walk(f.node):
                 if not isinstance(c, ast.Call):
                     continue
@@ -210,6 +224,36 @@ def run(R, P="C09"):
                     if k_.arg is not None and isinstance(k_.value, ast.Name) and k_.value.id in ps:
                         R.check(same(k_.arg, k_.value.id), P + ".FACTORY", "%s:base:%s" % (init.qualname, k_.value.id), R.site(init, c),
                                 "%s is handed to the base constructor as %s=" % (k_.value.id, k_.arg), "%s.__init__ hands %s to the base constructor as %s=" % (cls_.name, k_.value.id, k_.arg))
+    # the task object is built by the class given with cls=, from the generator and the call's own (fn, args, kwargs), with the
+    # decorator's extra keyword options passed on
+    pcp = repo.cls("decorators.PureAsyncDecorator").methods.get("_call_pure")
+    R.need(pcp is not None, "anchor vanished: PureAsyncDecorator._call_pure")
+    tcs = [c for c in q.calls(pcp.node) if q.src(c.func) == "self.task_cls"]
+    pp_ = q.param_names(pcp.node)
+    okt = len(tcs) == 1 and len(tcs[0].args) == 4 and [q.src(a) for a in tcs[0].args[1:]] == ["self.fn", pp_[1], pp_[2]] \
+        and any(k.arg is None and q.src(k.value) == "self.kwargs" for k in tcs[0].keywords)
+    if okt:
+        gen = tcs[0].args[0]
+        gv = [v for k_, v in common.assigned_values(pcp.node, gen.id) if k_ == "expr"] if isinstance(gen, ast.Name) else []
+        okt = bool(gv) and all(isinstance(v, ast.Call) and q.src(v.func) in ("self.fn", "self._fn_wrapper") for v in gv)
+    R.check(okt, P + ".FACTORY", pcp.qualname + ":task", R.site(pcp),
+            "the task is self.task_cls(<generator of this call>, self.fn, args, kwargs, **self.kwargs)",
+            "the task object is not built as self.task_cls(generator, self.fn, args, kwargs, **self.kwargs): a custom task class (cls=) or its "
+            "keyword options are bypassed, or the task records other arguments than the call's")
+    # a decorator that stacks on another one (deduplicate on an @asynq function) leaves the synchronous call to the wrapped
+    # decorator: it inherits __call__ (-> self.fn(*args, **kwargs)), so that a sync_fn given there keeps being honoured
+    dd_ = repo.cls("tools.DeduplicateDecorator")
+    own_call = dd_.methods.get("__call__")
+    okc = own_call is None
+    if own_call is not None:
+        ocfg = cfg_of(own_call)
+        good_ = [n for n in ocfg.nodes if n.kind == "stmt" and isinstance(n.ast, ast.Return) and isinstance(n.ast.value, ast.Call)
+                 and q.src(n.ast.value.func) in ("self.fn", "AsyncDecorator.__call__", "super().__call__") and forwards(n.ast.value, "args", "kwargs") == "full"]
+        okc = ocfg.find_path([ocfg.entry], [ocfg.exit], N, cut_nodes=good_) is None and bool(good_)
+    R.check(okc, P + ".ROUTE", dd_.qualname + ":sync", R.site(dd_.module, dd_.node),
+            "the synchronous call of a deduplicated function goes to the wrapped function's own synchronous call",
+            "DeduplicateDecorator.__call__ does not hand the synchronous call to the wrapped function: a sync_fn given to the underlying "
+            "@asynq(sync_fn=...) is bypassed and the async body runs instead")
     # ---- ROUTE: sync = .value() of async
     def ret_srcs(m):
         return [q.src(n.value) for n in ast.walk(m.node) if isinstance(n, ast.Return) and n.value is not None and not q.is_none(n.value)]
@@ -278,6 +322,13 @@ def run(R, P="C09"):
                 continue
             target = "self.decorator." + mname
             form = binder_form(m, target)
+            if form is None:
+                truthy = [x for x in ast.walk(m.node) if isinstance(x, (ast.If, ast.IfExp, ast.While)) and q.atom_test(x.test)[0] == "truth" and q.atom_test(x.test)[1] == "self.instance"]
+                if truthy:
+                    R.violation(P + ".BINDERS", m.qualname + ":test", site,
+                                "the binder decides by the truth value of self.instance (`%s`): an instance that is falsy (an empty container, a zero-like "
+                                "value object) is treated as 'not bound' and dropped from the call" % q.src(truthy[0].test))
+                    continue
             R.need(form is not None, "idiom: binder method %s is neither an if/else on self.instance nor a conditional expression" % m.qualname)
             test, none_args, inst_args, kw_ok = form
             k, s, pos = q.atom_test(test)
